@@ -53,6 +53,10 @@ static DELAY_SEED: AtomicU64 = AtomicU64::new(0);
 static DELAY_LEVEL: AtomicU64 = AtomicU64::new(0);
 static HOOK_ON: AtomicBool = AtomicBool::new(false);
 static STAMP: AtomicU64 = AtomicU64::new(0);
+static RDV_WAITING: AtomicU64 = AtomicU64::new(0);
+static RDV_GEN: AtomicU64 = AtomicU64::new(0);
+static RDV_MET: AtomicU64 = AtomicU64::new(0);
+thread_local! { static FRESH: std::cell::Cell<bool> = const { std::cell::Cell::new(false) }; }
 
 fn mon() -> &'static Mutex<MonState> {
     MON.get_or_init(Default::default)
@@ -220,6 +224,31 @@ fn hook(ev: &Event) {
     if under_lock {
         return;
     }
+    // rendezvous: a thread that has just parsed a cluster afresh waits (spinning, bounded) at the entry of
+    // build_plain_reader until another thread arrives there too, so that first accesses to a cluster enter together
+    match ev {
+        Event::ClusterMiss { .. } => FRESH.with(|f| f.set(true)),
+        Event::BuildPlainBegin => {
+            let fresh = FRESH.with(|f| f.replace(false));
+            if RDV_WAITING.load(Ordering::Acquire) > 0 {
+                RDV_GEN.fetch_add(1, Ordering::AcqRel);
+                RDV_MET.fetch_add(1, Ordering::Relaxed);
+                return;
+            }
+            if fresh {
+                let gen = RDV_GEN.load(Ordering::Acquire);
+                RDV_WAITING.fetch_add(1, Ordering::AcqRel);
+                let t0 = std::time::Instant::now();
+                let budget = std::time::Duration::from_micros(40 * level);
+                while RDV_GEN.load(Ordering::Acquire) == gen && t0.elapsed() < budget {
+                    std::hint::spin_loop();
+                }
+                RDV_WAITING.fetch_sub(1, Ordering::AcqRel);
+                return;
+            }
+        }
+        _ => {}
+    }
     let tid = thread_tag();
     let h = mix(DELAY_SEED.load(Ordering::Relaxed) ^ mix(stamp) ^ tid);
     let p = h % 1000;
@@ -284,6 +313,7 @@ fn monitor_collect(out: &mut CaseOut) {
         out.obs.set("schedule_signatures", format!("{s:016x}"));
     }
     out.obs.max("simultaneous_decodes", st.max_active_decodes.max(0) as u64);
+    out.obs.add("first_accesses_entered_together(rendezvous)", RDV_MET.swap(0, Ordering::Relaxed));
     let redecoded = st.cluster_miss.values().filter(|c| **c > 1).count();
     out.obs.add("clusters_parsed_more_than_once(evicted)", redecoded as u64);
     for (k, w) in st.violations.clone() {
@@ -439,13 +469,13 @@ pub fn fixture(seed: u64, which: u64, tier: Tier, work: &std::path::Path) -> Res
     };
     let mut items = vec![];
     for i in 0..n_big {
-        items.push(Item { len: 2_150_000 + rng.below(5000) as usize, ent: Ent::Low4, hint: Hint::Yes, src: Src::Mem, dup_of: None });
+        items.push(Item { len: 2_150_000 + rng.below(5000) as usize, ent: Ent::Low4, hint: Hint::Yes, src: Src::Mem, dup_of: None, cat_of: None });
         if i % 4 == 0 {
-            items.push(Item { len: rng.range(1, 90_000) as usize, ent: Ent::High, hint: Hint::No, src: Src::Mem, dup_of: None });
+            items.push(Item { len: rng.range(1, 90_000) as usize, ent: Ent::High, hint: Hint::No, src: Src::Mem, dup_of: None, cat_of: None });
         }
         if i % 5 == 0 {
             for _ in 0..20 {
-                items.push(Item { len: rng.range(0, 3000) as usize, ent: Ent::Mid6, hint: Hint::Yes, src: Src::Mem, dup_of: None });
+                items.push(Item { len: rng.range(0, 3000) as usize, ent: Ent::Mid6, hint: Hint::Yes, src: Src::Mem, dup_of: None, cat_of: None });
             }
         }
     }
@@ -453,7 +483,7 @@ pub fn fixture(seed: u64, which: u64, tier: Tier, work: &std::path::Path) -> Res
         // make up the number of clusters with cheap ones (4095 blobs close a cluster)
         for b in 0..30 {
             for _ in 0..4095 {
-                items.push(Item { len: 1 + b % 2, ent: Ent::Low4, hint: Hint::Yes, src: Src::Mem, dup_of: None });
+                items.push(Item { len: 1 + b % 2, ent: Ent::Low4, hint: Hint::Yes, src: Src::Mem, dup_of: None, cat_of: None });
             }
         }
     }
@@ -470,7 +500,7 @@ pub fn fixture(seed: u64, which: u64, tier: Tier, work: &std::path::Path) -> Res
         sort: None,
         unique_keys: false,
     };
-    let dir = DirCase { seed: rng.next(), vstores: vec![false, true], stores: vec![files], indexes: vec![IndexDef { name: "files".into(), store: 0, offset: 0, count: 600 }] };
+    let dir = DirCase { seed: rng.next(), vstores: vec![false, true], stores: vec![files], indexes: vec![IndexDef { name: "files".into(), store: 0, offset: 0, count: 600 }], defer: 0 };
     let case = ContCase { content, dir, pkg: Pkg::OneFile, extra: vec![] };
     let scratch = Scratch::new(work, "c07fix");
     let created = create_container(&case, &scratch.dir, "c.jbk", Arc::new(()))?;
